@@ -21,7 +21,28 @@ oracles written from the property statement:
   public entry points): the result is the documented neighbour of the configuration GIVEN, the same
   call gives the same result whatever happened in between, the opposite move (Increase/Decrease, Pair
   NE/SW, NW/SE) gives back the configuration given, catalogs stay synchronised, iteration stays complete;
-* `segmentation_catalogs` / `generic_alt_specific_catalogs` against their documented closed form.
+* `segmentation_catalogs` / `generic_alt_specific_catalogs` / `segmented_beta` against their documented closed form.
+
+Round 3:
+* construction (`Catalog(...)`, `Catalog.from_dict(...)` handed declared `Controller` objects): catalogs listing the
+  controller's names, or a variant (other order, a name replaced, fewer, more, other case; reserved character in the
+  catalog name, no member): refused, or every catalog follows its controller BY NAME in every configuration
+  (model `Cat.construct`, theorems accepted_catalog_matches_controller / mismatched_catalog_refused /
+  declared_controller_sync);
+* `SelectedExpressionsIterator(expression, chosen)` on chosen sets of configurations (choices listed in any order,
+  started in any state) and `BIOGEME.estimate_catalog` (all / selected configurations, real estimations in a fresh
+  interpreter): one model per configuration asked for, each the model of the hand-written formula
+  (model `Cat.estimateCatalog`, theorems iteration_visits_selected / estimate_catalog_all / _selected);
+* `rename_elementary` / `fix_betas` / `change_init_values` through the catalogs = the same on the hand-written formula;
+  afterwards, under another configuration, members that were not selected kept their leaves (model `Expr.mapSel`,
+  theorems delegated_rewrite_*); accessors of the interface (`MultipleExpression.selected_name / catalog_size /
+  selected_expression / get_children / get_status_id_manager`);
+* a formula used alone and as a part of bigger formulas, in any order (`Expression.set_central_controller`): every formula
+  always reports the configurations of its own catalogs (model: `central` of the formula alone, theorem embedded_formula;
+  known finding FC16f on the unchanged tree);
+* the signature text the calculator hands to the engine for a configured formula is run by the PROVED engine
+  model (lib/leanrun.py, theorems C01.engine_reads_text / engine_correct) and must give the integer value of the
+  hand-written formula: the C++ engine is no longer trusted for these.
 """
 
 from __future__ import annotations
@@ -32,7 +53,7 @@ import math
 import re
 import types
 
-from lib import core
+from lib import core, leanrun
 from lib.core import Result
 
 READY = True
@@ -48,21 +69,41 @@ MANIFEST = dict(
     'prepared_pairs_distinct); what an operator returns is a function of the configuration it is given, not of the state the controllers were left in '
     '(operator_state_independent), controllers it does not name keep their alternative (operator_moves_only_named), and over any interleaving of operator '
     'calls on a population with configure/select/modify/iterate operations the members stay valid and equal those produced by the operator calls alone '
-    '(population_history). Tie: correspondence on real Catalog/Controller/Configuration objects, '
+    '(population_history). Round 3: the constructors accept a catalog handed a controller only if it lists the names of the controller in the same order, '
+    'so that the positional selection shows the alternative the controller object names (accepted_catalog_matches_controller / mismatched_catalog_refused / '
+    'order_check_necessary / declared_controller_sync); the iterator over any chosen list of configurations visits exactly that list from any state '
+    '(iteration_visits_selected); estimate_catalog returns, for all configurations below the cap or for any chosen valid ones, one entry per configuration, '
+    'under pairwise different identifiers, each the formula written out by hand, and is refused above the cap (estimate_catalog_all / _selected / _too_many); '
+    'rename_elementary / fix_betas / change_init_values handed to the selected member commute with selection, leave the space of configurations and the '
+    'members that are not selected untouched (delegated_rewrite_commutes / _equals_handwritten / _local); the space of a formula is a function of the '
+    'formula alone, and inside a bigger formula its controllers are controllers of the bigger one, every valid configuration of the bigger one restricts to '
+    'a valid configuration of the part, with the same hand-written form (embedded_formula / embedded_operands). '
+    'Tie: correspondence on real Catalog/Controller/Configuration objects, '
     'engine evaluation of configured vs hand-written formulas, decoded signatures, operator histories with recorded random choices, population '
-    'histories (operator applied to a configuration that is not the one the expression shows); spaces up to the cap enumerated completely.',
+    'histories (operator applied to a configuration that is not the one the expression shows); spaces up to the cap enumerated completely; '
+    'construction stream with declared controllers and both constructors; iteration over chosen sets; real estimate_catalog runs against hand-written '
+    'estimations; rewriting through catalogs; signature texts of configured formulas run by the proved engine model (leanrun); scripts using a formula '
+    'alone and as a part of one or two bigger formulas in any order.',
     design='DESIGN.md §5 C16',
     technique='Lean 4 theorems over an executable state-machine model + differential correspondence with the real catalog machinery and the real engine',
-    note='Three input-validation defects are listed as known findings (FC16a/b/c: same-named controllers merged, reserved separators and duplicate '
-    'specification names accepted); the model is the repaired behaviour (refusal). The state reached when an operation raises is not modelled.',
+    note='Known finding FC16f (open): Expression.set_central_controller hands the central controller of an enclosing formula to the formulas it contains, '
+    'so a formula used alone after (or before) being used inside a bigger one reports the configurations of the bigger one; the model is the repaired '
+    'behaviour (proposed_fixes/FC16f.diff). Three input-validation defects were listed as known findings (FC16a/b/c: same-named controllers merged, reserved separators and duplicate '
+    'specification names accepted; fixed in /repo since); the model is the repaired behaviour (refusal). The state reached when an operation raises is '
+    'not modelled. Not modelled: the numerical estimation inside estimate_catalog (compared with the estimation of the hand-written formula by the same '
+    'code), recycle / bootstrap options, code-text generators of segmentation.py (beta_code / segmented_code), Configuration.get_html.',
 )
 
 TRUSTED = [
-    'the engine evaluates both the configured and the hand-written formula (same engine on both sides of the comparison)',
+    'the engine evaluates both the configured and the hand-written formula (same engine on both sides of the comparison); for the first two '
+    'configurations of every case the real signature text is also run by the proved engine model and compared with integer arithmetic',
+    'estimate_catalog stream: the optimiser, run by the same code on the configured and on the hand-written formula (log likelihood compared at rel 1e-5)',
     'Python str ordering = lexicographic order on code points (leName in the model)',
     'set/dict iteration order of CPython is irrelevant: sets are compared as sorted lists',
 ]
 ASSUMPTIONS = [
+    'a formula object is asked about its catalogs either on its own or through bigger formulas containing it, not both (otherwise known finding FC16f '
+    'applies on the unchanged tree: the model describes the repaired code)',
     'controller and specification names contain no ";" or ":" and are distinct inside one controller; controllers are identified by their name '
     '(guards SelOK / SpaceWF of the theorems; the code does not enforce them: known findings FC16a/b/c)',
 ]
@@ -70,7 +111,8 @@ RULE = (
     'expressions with 1-4 controllers of size 1-5 (own and shared controllers, nested catalogs, adversarial names); every configuration of spaces '
     'below the cap is configured and evaluated; operator histories of length 1-20; population histories (2-4 members, 4-18 events: operator calls, '
     'repeated calls, opposite moves, configure/select/modify/iterate in between); non-trivial = at least two controllers, or a shared controller, or a '
-    'nested catalog'
+    'nested catalog; construction: 1-2 declared controllers, 2-5 catalogs (list / from_dict), at most one catalog deviating from its controller; '
+    'estimate_catalog: 2-12 configurations, 8 rows; rewriting: one operation per case under one configuration, then another configuration'
 )
 
 W_SAME = 'get_all_controllers: two different controllers with the same name are merged'
@@ -88,6 +130,8 @@ MATCHERS = {
 }
 
 MAXN = 100  # default of maximum_number_catalog_expressions
+EXTRA_MODULES = list(leanrun.MODULES)
+LEANRUN: list = []  # (observation of what the calculator handed to the engine, integer values of the hand-written formula, case)
 
 CAT_NAMES = ['c1', 'c10', 'c2', 'Zcat', 'a_b', 'a', 'β', 'cat x', 'a-b', 'no_seg', 'b_c', '']
 CTRL_NAMES = ['k', 'K10', 'K2', 'shared', 'a_b_c', 'ω', 'k k']
@@ -136,7 +180,10 @@ def gen_cat(rng, depth, st):
         specs = rng.sample(SPEC_NAMES, size)
         own = True
     ms = [[s, gen_expr(rng, depth - 1, st, allow_cat=rng.random() < 0.6)] for s in specs]
-    return {'k': 'cat', 'name': name, 'ctrl': ctrl, 'own': own, 'ms': ms}
+    node = {'k': 'cat', 'name': name, 'ctrl': ctrl, 'own': own, 'ms': ms}
+    if rng.random() < 0.3:
+        node['via'] = 'from_dict'  # the alternative constructor (member names are distinct here)
+    return node
 
 
 def gen_case(rng):
@@ -152,25 +199,37 @@ def gen_case(rng):
         e = {'k': 'bin', 'op': rng.choice(['plus', 'times', 'minus']), 'a': e, 'b': {'k': 'num', 'v': rng.randint(1, 3)}}
     betas = {b: rng.randint(-3, 4) for b in BETAS}
     rows = [{v: rng.randint(-3, 5) for v in VARS} for _ in range(3)]
-    return {'expr': e, 'betas': betas, 'rows': rows}
+    case = {'expr': e, 'betas': betas, 'rows': rows}
+    if st['shared']:
+        case['decl'] = {k: list(v) for k, v in st['shared'].items()}  # Controller objects created before the formula
+    return case
 
 
 # --------------------------------------------------------------------------- walking the abstract case (oracle side)
 
 
-def walk_ctrls(e, out):
-    """controllers of the abstract case: name -> specs (every catalog, selected or not)"""
+def walk_ctrls(e, out, decl=None):
+    """controllers of the abstract case: name -> specs (every catalog, selected or not); a catalog handed a
+    declared Controller object (case['decl']) is governed by the names of that object"""
     k = e['k']
     if k == 'neg':
-        walk_ctrls(e['a'], out)
+        walk_ctrls(e['a'], out, decl)
     elif k == 'bin':
-        walk_ctrls(e['a'], out)
-        walk_ctrls(e['b'], out)
+        walk_ctrls(e['a'], out, decl)
+        walk_ctrls(e['b'], out, decl)
     elif k == 'cat':
-        out.setdefault(e['ctrl'], [m[0] for m in e['ms']])
+        own = e.get('own', e['ctrl'] == e['name'])
+        if decl and not own and e['ctrl'] in decl:
+            out.setdefault(e['ctrl'], list(decl[e['ctrl']]))
+        else:
+            out.setdefault(e['ctrl'], [m[0] for m in e['ms']])
         for _, m in e['ms']:
-            walk_ctrls(m, out)
+            walk_ctrls(m, out, decl)
     return out
+
+
+def ctrls_of(case):
+    return walk_ctrls(case['expr'], {}, case.get('decl'))
 
 
 def features(e, depth=0, acc=None):
@@ -256,14 +315,30 @@ def builders(case):
     }
 
 
-def build_real(case, distinct_objects=False):
-    """real expression with Catalog objects; returns (expression, list of (abstract node, Catalog))"""
+def build_real(case, distinct_objects=False, keep=None):
+    """real expression with Catalog objects; returns (expression, list of (abstract node, Catalog)); `keep` (dict) receives
+    the real object built for every abstract node, by id() of the node"""
     L = lib()
     B = builders(case)
     ctrl_objs = {}
     cats = []
+    if not distinct_objects:
+        # the Controller objects the user's script creates before writing the formula
+        for cn, specs in (case.get('decl') or {}).items():
+            ctrl_objs[cn] = L.Controller(cn, list(specs))
+
+    def make(e, members, **kw):
+        if e.get('via') == 'from_dict':
+            return L.Catalog.from_dict(e['name'], {m.name: m.expression for m in members}, **kw)
+        return L.Catalog(e['name'], members, **kw)
 
     def go(e):
+        obj = go_(e)
+        if keep is not None:
+            keep[id(e)] = obj
+        return obj
+
+    def go_(e):
         k = e['k']
         if k == 'num':
             return B['Numeric'](e['v'])
@@ -278,7 +353,7 @@ def build_real(case, distinct_objects=False):
             return {'plus': lambda: a + b, 'minus': lambda: a - b, 'times': lambda: a * b, 'eq': lambda: a == b}[e['op']]()
         members = [L.ex.NamedExpression(name=n, expression=go(m)) for n, m in e['ms']]
         if e.get('own', e['ctrl'] == e['name']) and not distinct_objects and e['ctrl'] not in ctrl_objs:
-            c = L.Catalog(e['name'], members)
+            c = make(e, members)
             ctrl_objs[e['ctrl']] = c.controlled_by
         else:
             if distinct_objects or e['ctrl'] not in ctrl_objs:
@@ -287,7 +362,7 @@ def build_real(case, distinct_objects=False):
                     ctrl_objs[e['ctrl']] = obj
             else:
                 obj = ctrl_objs[e['ctrl']]
-            c = L.Catalog(e['name'], members, controlled_by=obj)
+            c = make(e, members, controlled_by=obj)
         cats.append((e, c))
         return c
 
@@ -350,6 +425,7 @@ def err_tag(e):
         ('Cannot contain characters', 'badName'),
         ('more than once in the specification', 'dupSpec'),
         ('same name', 'sameName'),
+        ('Incompatible IDs', 'incompatible'),
     ]:
         if pat in s:
             return tag
@@ -449,12 +525,22 @@ def tree_battery(e, db_):
     get('count_panel', lambda: e.count_panel_trajectory_expressions())
     get('dict_beta', lambda: sorted(e.dict_of_elementary_expression(T.FREE_BETA)))
     get('get_elem', lambda: [type(e.get_elementary_expression(n)).__name__ for n in BETAS + VARS])
+
+    def status_ids():
+        e.prepare(db_, 0)
+        with_ids = [sorted(x) for x in e.get_status_id_manager()]
+        e.set_id_manager(None)
+        return [with_ids, [sorted(x) for x in e.get_status_id_manager()]]
+
+    get('status_ids', status_ids)
+    get('draw_types', lambda: sorted(e.dict_of_draw_types().items()))
+    get('multiple', lambda: len(e.set_of_multiple_expressions()))
     return out
 
 
 def _check_case(ctx, res, case, n_configs, n_hist, model, phase):
     L = lib()
-    ctrls = walk_ctrls(case['expr'], {})
+    ctrls = ctrls_of(case)
     sizes = {n: len(s) for n, s in ctrls.items()}
     expected_n = math.prod(sizes.values())
     feats = features(case['expr'])
@@ -547,12 +633,26 @@ def _check_case(ctx, res, case, n_configs, n_hist, model, phase):
         if now != sid:
             res.violate('current_configuration after configure_catalogs is another configuration', {**case, 'config': sid}, now, sid,
                         where='configure_catalogs')
+        ME = L.ex.MultipleExpression
         for node, cat in cats:
             shown = cat.selected_name()
             if shown != cfg[node['ctrl']]:
                 res.violate(
                     f'catalog {node["name"]!r} governed by controller {node["ctrl"]!r} does not show the selected alternative',
                     {**case, 'config': sid}, shown, cfg[node['ctrl']], where='Controller.set_index / Catalog.selected')
+            # the accessors of the interface (MultipleExpression) and of Catalog agree and delegate to the selected member
+            sel = cat.selected()
+            member = cat.named_expressions[[m[0] for m in node['ms']].index(cfg[node['ctrl']])].expression
+            acc = {'selected': sel.name, 'interface selected_name': ME.selected_name(cat), 'catalog_size': cat.catalog_size(),
+                   'interface catalog_size': ME.catalog_size(cat), 'selected_expression': cat.selected_expression() is member,
+                   'get_children': [id(c) for c in cat.get_children()] == [id(c) for c in member.get_children()],
+                   'iterator': [m.name for m in cat.get_iterator()]}
+            want_acc = {'selected': cfg[node['ctrl']], 'interface selected_name': cfg[node['ctrl']], 'catalog_size': len(node['ms']),
+                        'interface catalog_size': len(node['ms']), 'selected_expression': True, 'get_children': True,
+                        'iterator': [m[0] for m in node['ms']]}
+            if acc != want_acc:
+                res.violate(f'accessors of catalog {node["name"]!r} do not describe the member selected for controller {node["ctrl"]!r}',
+                            {**case, 'config': sid}, acc, want_acc, where='MultipleExpression delegation')
         hw = hand_written(case['expr'], cfg, B)
         expr.prepare(db_, 0)
         hw.prepare(db_, 0)
@@ -566,7 +666,15 @@ def _check_case(ctx, res, case, n_configs, n_hist, model, phase):
                         s_real, s_hand, where='MultipleExpression.get_signature')
             v_real = None  # the engine is not given a formula that is already known to be wrong
         else:
-            v_real = [float(v) for v in expr.get_value_c(database=db_, prepare_ids=True)]
+            if len(sel_reqs) < 2 and model:
+                # what the calculator hands to the engine is recorded and run again by the proved engine model
+                o = leanrun.observe(expr, db_)
+                if 'error' in o:
+                    raise RuntimeError(o['error'])
+                v_real = o['values']
+                LEANRUN.append((o, [float(v) for v in v_int], {**case, 'config': sid}))
+            else:
+                v_real = [float(v) for v in expr.get_value_c(database=db_, prepare_ids=True)]
             v_hand = [float(v) for v in hw.get_value_c(database=db_, prepare_ids=True)]
             if v_real != v_hand or v_real != [float(v) for v in v_int]:
                 res.violate('the configured formula does not evaluate like the formula written out by hand', {**case, 'config': sid},
@@ -655,6 +763,12 @@ def _check_case(ctx, res, case, n_configs, n_hist, model, phase):
         lean_events, pobs, final = run_population(res, case, members, events)
         pop_reqs.append(({'op': 'population', 'expr': lexpr, 'members': members, 'events': lean_events}, pobs, final, events))
         res.tally('population_histories')
+
+    # ---- iteration over chosen configurations; rewriting through the catalogs
+    phase[0] = 'iteration over chosen configurations (SelectedExpressionsIterator)'
+    check_subset_iteration(ctx, res, case, lexpr, ctrls, all_valid, model)
+    phase[0] = 'rename_elementary / fix_betas / change_init_values through the catalogs'
+    check_rewrite(ctx, res, case, lexpr, ctrls, model)
 
     if not model:
         return
@@ -856,7 +970,7 @@ def run_population(res, case, members, events, report=True):
     """execute an abstract population history on fresh real objects; apply the oracles; return
     (events as the model sees them, observations, final members)"""
     L = lib()
-    ctrls = walk_ctrls(case['expr'], {})
+    ctrls = ctrls_of(case)
     names = sorted(ctrls)
     all_valid = valid_ids(ctrls)
     table = op_table(names)
@@ -1279,6 +1393,20 @@ def _check_helper(ctx, res, case_out):
             continue
         res.count(case, nontrivial=len(combos) > 1)
         res.tally('helper_altspec' if altspec else 'helper_segmentation')
+        # the one-call entry point biogeme.segmentation.segmented_beta (all segmentations kept, and a random subset of them)
+        from biogeme.segmentation import segmented_beta
+
+        for keep in ([True] * nseg, [rng.random() < 0.5 for _ in range(nseg)]):
+            kept_all = [(v, mp, refs[i]) for i, (v, mp, _r) in enumerate(segs) if keep[i]]
+            one = segmented_beta(ex.Beta(betas[0], 0, None, None, 0), tuple(t for t, k_ in zip(tuples, keep) if k_))
+            ref_form = seg_reference(betas[0], kept_all, B, ex)
+            one.prepare(db_, 0)
+            ref_form.prepare(db_, 0)
+            s_one, s_ref = decode_signature(one.get_signature()), decode_signature(ref_form.get_signature())
+            res.tally('helper_segmented_beta')
+            if s_one != s_ref:
+                res.violate('segmented_beta(...) is not the documented closed form of a segmented parameter', {**case, 'kept': keep}, s_one, s_ref,
+                            where='segmentation_catalogs / generic_alt_specific_catalogs')
         expected = valid_ids(ctrl_specs)
         got = expr.set_of_configurations()
         got_ids = None if got is None else sorted(c.get_string_id() for c in got)
@@ -1324,6 +1452,705 @@ def _check_helper(ctx, res, case_out):
                             v_real, v_hand, where='segmentation_catalogs / generic_alt_specific_catalogs')
             res.tally('helper_configurations_evaluated')
 
+
+
+
+# --------------------------------------------------------------------------- iteration over chosen configurations
+#
+# `SelectedExpressionsIterator(expression, configurations)` is what `BIOGEME.estimate_catalog` loops on, with all
+# configurations or with the set the caller selected.  Oracle: started in any state, over any set of valid
+# configurations (each written with its choices listed in any order), it visits exactly the chosen ones, each
+# once, and at every visit all catalogs show the alternatives of the configuration visited.
+
+W_ITER = 'SelectedExpressionsIterator'
+
+
+def check_subset_iteration(ctx, res, case, lexpr, ctrls, all_valid, model):
+    from biogeme.expressions.catalog_iterator import SelectedExpressionsIterator
+
+    L = lib()
+    rng = ctx.rng
+    names = sorted(ctrls)
+    expr, cats = build_real(case)
+    start = {n: rng.choice(ctrls[n]) for n in names}
+    expr.configure_catalogs(L.Configuration.from_dict(start))
+    chosen_ids = rng.sample(sorted(all_valid), rng.randint(1, min(4, len(all_valid))))
+    chosen = set()
+    for sid in chosen_ids:
+        items = list(id_cfg(sid).items())
+        rng.shuffle(items)
+        chosen.add(L.Configuration([L.SelectionTuple(a, b) for a, b in items]))
+    order = [c.get_string_id() for c in chosen]
+    visited = []
+    pcase = {**case, 'start': cfg_id(start), 'chosen': chosen_ids}
+    for ee in SelectedExpressionsIterator(expr, chosen):
+        now = ee.current_configuration().get_string_id()
+        visited.append(now)
+        cfg = id_cfg(now)
+        wrong = sorted(node['name'] for node, cat in cats if cat.selected_name() != cfg.get(node['ctrl']))
+        if wrong:
+            res.violate(f'while iterating over chosen configurations, at {now!r} catalogs {wrong} show another alternative', pcase,
+                        {node['name']: cat.selected_name() for node, cat in cats}, cfg, where=W_ITER)
+            break
+    res.tally('iteration_over_chosen_configurations')
+    if sorted(visited) != sorted(chosen_ids):
+        res.violate('iteration over a chosen set of configurations does not visit each of them exactly once', pcase, visited, sorted(chosen_ids),
+                    where=W_ITER)
+    if model:
+        def cb(a):
+            if a.get('visited') != visited or visited != order:
+                res.diverge('configurations visited by the iterator over chosen configurations', pcase, a, visited, where=W_ITER)
+
+        ctx.batch.add({'op': 'itersubset', 'expr': lexpr, 'chosen': order, 'start': cfg_id(start)}, cb)
+
+
+# --------------------------------------------------------------------------- rewriting through the catalogs
+#
+# rename_elementary / fix_betas / change_init_values of a formula with catalogs are handed by every catalog to
+# its selected member.  Oracle: applied to the configured formula and to the formula written out by hand for
+# the same configuration, they give the same formula (decoded signature, sets of parameters and variables) with
+# the same value, which is the integer value computed by the harness with the rewritten parameters.  Model:
+# Cat.Expr.mapSel (theorems delegated_rewrite_*): the formula selected afterwards under the same and under another
+# configuration (members that were not selected keep their leaves).
+
+W_REWRITE = 'MultipleExpression.rename_elementary / fix_betas / change_init_values'
+
+
+def database_renamed(case):
+    import pandas as pd
+    import biogeme.database as db
+
+    cols = {}
+    for v in VARS:
+        for pre in ('', 'p_'):
+            for suf in ('', '_s'):
+                cols[f'{pre}{v}{suf}'] = [float(r[v]) for r in case['rows']]
+    return db.Database('c16r', pd.DataFrame(cols))
+
+
+def check_rewrite(ctx, res, case, lexpr, ctrls, model):
+    import biogeme.expressions as ex
+
+    L = lib()
+    rng = ctx.rng
+    T = ex.TypeOfElementaryExpression
+    names = sorted(ctrls)
+    cfg = {n: rng.choice(ctrls[n]) for n in names}
+    cfg2 = {n: rng.choice(ctrls[n]) for n in names}
+    kind = rng.choice(['rename', 'rename', 'fix', 'fix', 'init'])
+    pre, suf = rng.choice([None, 'p_']), rng.choice([None, '_s'])
+    if kind == 'rename':
+        targets = rng.sample(BETAS + VARS, rng.randint(1, 4))
+        values = {}
+    else:
+        targets = rng.sample(BETAS, rng.randint(1, 3))
+        values = {b: float(rng.randint(-3, 4)) for b in targets}
+    op = {'kind': kind, 'names': targets, 'values': values, 'pre': pre if kind != 'init' else None, 'suf': suf if kind != 'init' else None}
+    pcase = {**case, 'config': cfg_id(cfg), 'then': cfg_id(cfg2), 'rewrite': op}
+
+    def apply(e):
+        if kind == 'rename':
+            e.rename_elementary(targets, prefix=pre, suffix=suf)
+        elif kind == 'fix':
+            e.fix_betas(values, prefix=pre, suffix=suf)
+        else:
+            e.change_init_values(values)
+
+    def describe(e, db_):
+        e.prepare(db_, 0)
+        sig = decode_signature(e.get_signature())
+        e.set_id_manager(None)
+        return {'signature': sig, 'free': sorted(e.set_of_elementary_expression(T.FREE_BETA)),
+                'fixed': sorted(e.set_of_elementary_expression(T.FIXED_BETA)), 'variables': sorted(e.set_of_elementary_expression(T.VARIABLE))}
+
+    expr, _ = build_real(case)
+    expr.configure_catalogs(L.Configuration.from_dict(cfg))
+    hw = hand_written(case['expr'], cfg, builders(case))
+    apply(expr)
+    apply(hw)
+    db2 = database_renamed(case)
+    d_real, d_hand = describe(expr, db2), describe(hw, db2)
+    res.tally('rewrite:' + kind)
+    if d_real != d_hand:
+        res.violate(f'{kind} applied through the catalogs does not give the rewritten hand-written formula', pcase, d_real, d_hand, where=W_REWRITE)
+        return
+    betas2 = {**case['betas'], **{k: int(v) for k, v in values.items()}}
+    v_int = [float(hand_int(case['expr'], cfg, betas2, r)) for r in case['rows']]
+    v_real = [float(v) for v in expr.get_value_c(database=db2, prepare_ids=True)]
+    expr.set_id_manager(None)
+    if v_real != v_int:
+        res.violate(f'after {kind} through the catalogs the configured formula does not evaluate like the rewritten hand-written formula', pcase,
+                    v_real, v_int, where=W_REWRITE)
+        return
+    if kind == 'init' or not model:
+        return
+    # another configuration afterwards: the members that were not selected kept their leaves
+    expr.configure_catalogs(L.Configuration.from_dict(cfg2))
+    try:
+        expr.prepare(db2, 0)
+    except Exception as e:  # noqa: BLE001
+        if core.exc_kind(e) != 'BiogemeError' or 'more than once' not in str(e):
+            raise
+        # the rewriting is local to the members that were selected: a parameter fixed there and still free in a member selected now
+        # carries one name with two statuses, which the id manager refuses; nothing of the property is concerned
+        res.tally('rewrite:other configuration mixes rewritten and original parameters')
+        return
+    sig2 = decode_signature(expr.get_signature())
+    expr.set_id_manager(None)
+
+    def cb(a):
+        if a.get('selected') != d_real['signature'] or a.get('hand_rewritten') != d_real['signature'] or not a.get('same_space'):
+            res.diverge(f'formula selected after {kind} through the catalogs', pcase, a, d_real['signature'], where=W_REWRITE)
+        elif a.get('selected_other') != sig2:
+            res.diverge(f'formula selected under another configuration after {kind} through the catalogs', pcase, a.get('selected_other'), sig2,
+                        where=W_REWRITE)
+
+    ctx.batch.add({'op': 'rewrite', 'kind': 'rename' if kind == 'rename' else 'fix', 'expr': lexpr, 'names': targets, 'pre': pre, 'suf': suf,
+                   'sels': [[a, b] for a, b in cfg.items()], 'sels2': [[a, b] for a, b in cfg2.items()]}, cb)
+
+# --------------------------------------------------------------------------- construction of catalogs handed a controller
+#
+# `Catalog(name, members, controlled_by=obj)` / `Catalog.from_dict(...)`: the selection is positional
+# (`named_expressions[controlled_by.current_index]`), so a catalog handed a controller must list the names of
+# the controller in the controller's order.  The stream declares Controller objects first, then writes catalogs
+# whose member names are the controller's names or a variant (another order, a name replaced, fewer, more,
+# another case).  Oracle from the property statement, without the model: either the library refuses the formula
+# (BiogemeError), or for every configuration every catalog shows the member NAMED by its controller and the
+# formula evaluates like the one written out by hand with the members picked by name.  Model: Cat.construct.
+
+VARIANTS = ['same', 'same', 'same', 'permuted', 'reversed', 'renamed', 'shorter', 'longer', 'case', 'swapped_ends']
+W_BUILD = 'Catalog.__init__: names of the catalog against the names of the controller it is handed'
+
+
+def variant_names(rng, specs, how):
+    specs = list(specs)
+    if how == 'permuted' and len(specs) >= 2:
+        for _ in range(20):
+            out = list(specs)
+            rng.shuffle(out)
+            if out != specs:
+                return out
+    if how == 'reversed' and len(specs) >= 2:
+        return specs[::-1]
+    if how == 'swapped_ends' and len(specs) >= 3:
+        return [specs[-1]] + specs[1:-1] + [specs[0]]
+    if how == 'renamed':
+        out = list(specs)
+        out[rng.randrange(len(out))] = rng.choice([n for n in SPEC_NAMES + ['other'] if n not in specs])
+        return out
+    if how == 'shorter' and len(specs) >= 2:
+        return specs[:-1] if rng.random() < 0.5 else specs[1:]
+    if how == 'longer':
+        extra = rng.choice([n for n in SPEC_NAMES + ['other'] if n not in specs])
+        return specs + [extra] if rng.random() < 0.5 else [extra] + specs
+    if how == 'case':
+        out = [n.swapcase() for n in specs]
+        if out != specs and len(set(out)) == len(out):
+            return out
+    return specs
+
+
+def gen_build_case(rng):
+    nd = rng.choice([1, 1, 2])
+    decl = {}
+    for cn in rng.sample(CTRL_NAMES, nd):
+        decl[cn] = rng.sample([n for n in SPEC_NAMES if n], rng.choice([1, 2, 2, 3, 3, 4]))
+    cat_names = rng.sample(CAT_NAMES, rng.randint(2, 4))
+    # one mismatching catalog at most in two thirds of the cases (the others: every catalog matches)
+    bad_at = rng.randrange(len(cat_names)) if rng.random() < 0.67 else None
+    leaf = lambda: rng.choice([{'k': 'num', 'v': rng.randint(-4, 6)}, {'k': 'beta', 'n': rng.choice(BETAS)},  # noqa: E731
+                               {'k': 'bin', 'op': 'times', 'a': {'k': 'beta', 'n': rng.choice(BETAS)}, 'b': {'k': 'var', 'n': rng.choice(VARS)}}])
+    nodes = []
+    for i, name in enumerate(cat_names):
+        if i > 0 and rng.random() < 0.2:
+            size = rng.choice([1, 2, 3])
+            names = rng.sample(SPEC_NAMES, size)
+            node = {'k': 'cat', 'name': name, 'ctrl': name, 'own': True, 'ms': [[n, leaf()] for n in names]}
+        else:
+            cn = rng.choice(sorted(decl)) if i else sorted(decl)[0]
+            how = rng.choice([v for v in VARIANTS if v != 'same']) if i == bad_at else 'same'
+            names = variant_names(rng, decl[cn], how)
+            node = {'k': 'cat', 'name': name, 'ctrl': cn, 'own': False, 'ms': [[n, leaf()] for n in names]}
+        if len(set(m[0] for m in node['ms'])) == len(node['ms']) and rng.random() < 0.4:
+            node['via'] = 'from_dict'
+        nodes.append(node)
+    malformed = None
+    if rng.random() < 0.12:
+        # arguments the constructors refuse whatever the controller: reserved character in the catalog name, no member
+        node = rng.choice(nodes)
+        malformed = rng.choice(['name', 'empty'])
+        if malformed == 'name':
+            newname = node['name'] + rng.choice([';', ':']) + 'q'
+            if node['own']:
+                node['ctrl'] = newname
+            node['name'] = newname
+        else:
+            node['ms'] = []
+            node.pop('via', None) if rng.random() < 0.5 else None
+    # every declared controller governs at least one catalog with its own names
+    used = {n['ctrl'] for n in nodes}
+    for cn in sorted(decl):
+        if cn not in used:
+            nm_ = next(n for n in CAT_NAMES if n not in cat_names)
+            cat_names.append(nm_)
+            nodes.append({'k': 'cat', 'name': nm_, 'ctrl': cn, 'own': False, 'ms': [[n, leaf()] for n in decl[cn]]})
+    # a mismatching catalog may sit inside a member of another catalog (selected or not)
+    if len(nodes) >= 3 and nodes[0]['ms'] and rng.random() < 0.4:
+        inner = nodes.pop()
+        host = nodes[0]
+        j = rng.randrange(len(host['ms']))
+        host['ms'][j][1] = {'k': 'bin', 'op': 'plus', 'a': host['ms'][j][1], 'b': inner}
+    e = nodes[0]
+    for n in nodes[1:]:
+        e = {'k': 'bin', 'op': rng.choice(['plus', 'minus', 'times']), 'a': e, 'b': n}
+    e = {'k': 'bin', 'op': 'plus', 'a': e, 'b': {'k': 'num', 'v': rng.randint(1, 3)}}
+    case = {'shape': 'construct', 'expr': e, 'decl': decl, 'betas': {b: rng.randint(-3, 4) for b in BETAS},
+            'rows': [{v: rng.randint(-3, 5) for v in VARS} for _ in range(2)]}
+    if malformed:
+        case['malformed'] = malformed
+    return case
+
+
+def mismatches(case):
+    """catalogs handed a declared controller whose list of names is not the list of the controller"""
+    decl = case.get('decl') or {}
+    return [n['name'] for n in all_cat_nodes(case['expr'], [])
+            if not n.get('own', n['ctrl'] == n['name']) and n['ctrl'] in decl and [m[0] for m in n['ms']] != list(decl[n['ctrl']])]
+
+
+def oracle_construct(res, case, report=True):
+    """build the formula through the public constructors; if it is accepted every catalog must follow its
+    controller BY NAME in every configuration.  Returns ('refused', tag) | ('accepted', violation or None)"""
+    L = lib()
+    try:
+        expr, cats = build_real(case)
+    except Exception as e:  # noqa: BLE001
+        if core.exc_kind(e) == 'BiogemeError':
+            return 'refused', err_tag(e)
+        if report:
+            res.violate(f'the constructors raise {type(e).__name__}: {e}', case, core.exc_kind(e), 'a catalog or a refusal', where=W_BUILD)
+        return 'refused', core.exc_kind(e)
+    ctrls = ctrls_of(case)
+    names = sorted(ctrls)
+    db_ = database(case)
+    why = None
+    combos = list(itertools.product(*[ctrls[n] for n in names]))[:60]
+    for combo in combos:
+        cfg = dict(zip(names, combo))
+        sid = cfg_id(cfg)
+        try:
+            expr.configure_catalogs(L.Configuration.from_dict(cfg))
+        except Exception as e:  # noqa: BLE001
+            why = (f'the accepted formula refuses the configuration {sid!r}: {e}', err_tag(e), 'configured')
+            break
+        shown = {node['name']: cat.selected_name() for node, cat in cats}
+        wrong = sorted(node['name'] for node, cat in cats if cat.selected_name() != cfg[node['ctrl']])
+        if wrong:
+            why = (f'configuration {sid!r}: catalogs {wrong} do not take the alternative selected for their controller', shown,
+                   {node['name']: cfg[node['ctrl']] for node, _ in cats})
+            break
+        try:
+            want = [float(hand_int(case['expr'], cfg, case['betas'], r)) for r in case['rows']]
+        except KeyError as e:
+            why = (f'configuration {sid!r}: a catalog does not offer the alternative {e} of its controller', shown, 'the matching alternative')
+            break
+        expr.set_id_manager(None)
+        got = [float(v) for v in expr.get_value_c(database=db_, prepare_ids=True)]
+        expr.set_id_manager(None)
+        if got != want:
+            why = (f'configuration {sid!r}: the configured formula does not evaluate like the formula written out by hand', got, want)
+            break
+    if why and report:
+        res.violate(why[0], {**case, 'config': sid}, why[1], why[2], where=W_BUILD)
+    return 'accepted', why
+
+
+def check_construction(ctx, res, n):
+    reqs, obs = [], []
+    for i in range(n):
+        case = gen_build_case(ctx.rng)
+        bad = mismatches(case) or case.get('malformed')
+        res.count(case, nontrivial=True)
+        res.tally('construct:' + ('malformed ' + case['malformed'] if case.get('malformed') else 'mismatch' if bad else 'all catalogs match'))
+        for node in all_cat_nodes(case['expr'], []):
+            res.tally('construct:via ' + node.get('via', 'list'))
+        outcome, detail = oracle_construct(res, case)
+        if outcome == 'accepted' and not bad and not detail and i % 3 == 0:
+            # an accepted formula written with declared controllers also goes through the whole battery
+            check_case(ctx, res, {k: case[k] for k in ('expr', 'decl', 'betas', 'rows')}, n_configs=6, n_hist=1)
+        reqs.append({'op': 'construct', 'expr': lean_expr(case['expr']), 'decl': [[k, v] for k, v in case['decl'].items()]})
+        obs.append((case, outcome, detail))
+
+    def cb(ans):
+        for a, (case, outcome, detail) in zip(ans, obs):
+            m = ('refused', a['err']) if 'err' in a else ('accepted', None)
+            r = (outcome, detail if outcome == 'refused' else None)
+            if m != r:
+                res.diverge('construction of a formula with declared controllers (accepted / refused, error kind)', case, m, r, where=W_BUILD)
+
+    ctx.batch.add_many(reqs, cb)
+
+
+# --------------------------------------------------------------------------- BIOGEME.estimate_catalog
+#
+# The consumer of the iteration: one estimation per configuration (all of them, or the set the caller selected),
+# results keyed by the identifier.  Oracle: the keys are exactly the identifiers of the configurations asked for;
+# the model estimated under an identifier has the parameters and the final log likelihood of the formula written
+# out by hand for that configuration, estimated by the same call on the same data.  Runs in a fresh interpreter.
+
+W_EST = 'BIOGEME.estimate_catalog / SelectedExpressionsIterator'
+
+
+def gen_est_case(rng):
+    """y explained by asc*x + catalogs of smooth members; 2-12 configurations, at least one free parameter everywhere"""
+    decl = {}
+    if rng.random() < 0.6:
+        decl[rng.choice(CTRL_NAMES)] = rng.sample([n for n in SPEC_NAMES if n], rng.choice([2, 2, 3]))
+    names = rng.sample(CAT_NAMES, rng.randint(1, 3))
+
+    def member(depth):
+        b, b2, v = rng.choice(BETAS[:3]), rng.choice(BETAS[:3]), rng.choice(['x', 'z'])
+        lin = {'k': 'bin', 'op': 'times', 'a': {'k': 'beta', 'n': b}, 'b': {'k': 'var', 'n': v}}
+        r = rng.random()
+        if r < 0.4:
+            return lin
+        if r < 0.65:
+            return {'k': 'bin', 'op': 'plus', 'a': lin, 'b': {'k': 'beta', 'n': b2}}
+        if r < 0.8:
+            return {'k': 'beta', 'n': b}
+        if r < 0.9 or depth <= 0 or not spare:
+            return {'k': 'num', 'v': rng.randint(-2, 2)}
+        nm_ = spare.pop()
+        return {'k': 'bin', 'op': 'plus', 'a': lin, 'b': cat(nm_, depth - 1)}
+
+    def cat(name, depth):
+        if decl and rng.random() < 0.6:
+            cn = sorted(decl)[0]
+            specs, own = decl[cn], False
+        else:
+            cn, specs, own = name, rng.sample(SPEC_NAMES, rng.choice([1, 2, 2, 3])), True
+        node = {'k': 'cat', 'name': name, 'ctrl': cn, 'own': own, 'ms': [[s_, member(depth)] for s_ in specs]}
+        if rng.random() < 0.3:
+            node['via'] = 'from_dict'
+        return node
+
+    spare = [n for n in CAT_NAMES if n not in names][:2]
+    e = {'k': 'bin', 'op': 'times', 'a': {'k': 'beta', 'n': 'asc'}, 'b': {'k': 'var', 'n': 'x'}}
+    for nme in names:
+        e = {'k': 'bin', 'op': 'plus', 'a': e, 'b': cat(nme, 1)}
+    case = {'shape': 'estimate', 'expr': e, 'betas': {b: 0 for b in BETAS},
+            'rows': [{'x': rng.randint(-3, 5), 'y': rng.randint(-6, 9), 'z': rng.randint(0, 2)} for _ in range(8)]}
+    used = {n['ctrl'] for n in all_cat_nodes(e, []) if not n['own']}
+    if used:
+        case['decl'] = {k: v for k, v in decl.items() if k in used}
+    return case
+
+
+def oracle_estimate(res, case):
+    import biogeme.biogeme as bio
+    import biogeme.expressions as ex
+
+    L = lib()
+    ctrls = ctrls_of(case)
+    all_valid = sorted(valid_ids(ctrls))
+    db_ = database(case)
+    B = builders(case)
+
+    def loglike(m):
+        return -((ex.Variable('y') - m) ** 2)
+
+    def summary(r):
+        return {'parameters': list(r.data.betaNames), 'loglike': float(r.data.logLike)}
+
+    def same(a, b):
+        return a['parameters'] == b['parameters'] and core.close(a['loglike'], b['loglike'], rel=1e-5, abs_=1e-7)
+
+    expr, _ = build_real(case)
+    b = bio.BIOGEME(db_, loglike(expr))
+    b.modelName, b.generate_html, b.generate_pickle = 'c16cat', False, False
+    got = {k: summary(v) for k, v in b.estimate_catalog(quick_estimate=True).items()}
+    if sorted(got) != all_valid:
+        res.violate('estimate_catalog does not return one estimated model per configuration', case, sorted(got), all_valid, where=W_EST)
+        return
+    hand = {}
+    for sid in all_valid:
+        bh = bio.BIOGEME(db_, loglike(hand_written(case['expr'], id_cfg(sid), B)))
+        bh.modelName, bh.generate_html, bh.generate_pickle = 'c16hand', False, False
+        hand[sid] = summary(bh.quick_estimate())
+        if not same(got[sid], hand[sid]):
+            res.violate(f'the model estimated for configuration {sid!r} is not the model of the formula written out by hand', {**case, 'config': sid},
+                        got[sid], hand[sid], where=W_EST)
+            return
+    res.tally('estimate_catalog:models', len(all_valid))
+    rng = core.rng_for('C16-estimate', len(all_valid))
+    chosen = rng.sample(all_valid, rng.randint(1, max(1, len(all_valid) - 1)))
+    sel = set()
+    for sid in chosen:
+        items = list(id_cfg(sid).items())
+        rng.shuffle(items)
+        sel.add(L.Configuration([L.SelectionTuple(a_, b_) for a_, b_ in items]))
+    expr2, _ = build_real(case)
+    b2 = bio.BIOGEME(db_, loglike(expr2))
+    b2.modelName, b2.generate_html, b2.generate_pickle = 'c16sel', False, False
+    got2 = {k: summary(v) for k, v in b2.estimate_catalog(selected_configurations=sel, quick_estimate=True).items()}
+    if sorted(got2) != sorted(chosen) or any(not same(got2[k], hand[k]) for k in got2):
+        res.violate('estimate_catalog(selected_configurations=...) does not return exactly the selected configurations, each with the model of its '
+                    'hand-written formula', {**case, 'chosen': chosen}, got2, {k: hand[k] for k in chosen}, where=W_EST)
+    res.tally('estimate_catalog:selected', len(chosen))
+    return {'all': got, 'selected': got2, 'chosen': [c.get_string_id() for c in sel]}
+
+
+def isolated_estimate(payload):
+    import logging
+    import warnings
+
+    warnings.simplefilter('ignore')
+    logging.disable(logging.CRITICAL)
+    out = []
+    with core.scratch():
+        for case in payload['cases']:
+            r = Result()
+            observed = None
+            try:
+                observed = oracle_estimate(r, case)
+            except Exception as e:  # noqa: BLE001
+                import traceback
+
+                tb = traceback.extract_tb(e.__traceback__)
+                site = next((f'{f.filename.split("/")[-1]}:{f.lineno} {f.name}' for f in reversed(tb) if '/biogeme/' in f.filename), '')
+                r.violate(f'estimate_catalog raises {type(e).__name__}: {str(e)[:200]} on a valid catalog structure', case, f'{core.exc_kind(e)} at {site}',
+                          'one estimated model per configuration', where=W_EST)
+            out.append({'violations': r.violations, 'tallies': dict(r.distribution), 'observed': observed})
+    return {'cases': out}
+
+
+def check_estimate(ctx, res, n):
+    cases = []
+    while len(cases) < n:
+        c = gen_est_case(ctx.rng)
+        if 2 <= len(valid_ids(ctrls_of(c))) <= 12:
+            cases.append(c)
+    out = core.run_isolated('props.c16', 'isolated_estimate', {'cases': cases})
+    if '__error__' in out:
+        res.notes.append('estimate_catalog stream: the isolated interpreter failed: ' + str(out.get('__error__'))[:200] + ' ' + str(out.get('stderr', ''))[-300:])
+        res.tally('estimate_catalog:infrastructure failure')
+        return
+    for c, o in zip(cases, out['cases']):
+        feats = features(c['expr'])
+        res.count(c, nontrivial=True)
+        res.tally('estimate_catalog:cases')
+        res.tally('estimate_catalog:' + ('nested' if feats['nested'] else 'flat'))
+        for k, v in o['tallies'].items():
+            res.tally(k, v)
+        res.violations.extend(o['violations'])
+        obs = o.get('observed')
+        if obs:
+            # the model of the loop (Cat.estimateCatalog, theorems estimate_catalog_all / _selected): identifiers and parameters of each model
+            def cb(ans, c=c, obs=obs):
+                for a, real in ((ans[0], obs['all']), (ans[1], obs['selected'])):
+                    m = {x['id']: sorted(x['betas']) for x in a.get('models', [])} if 'models' in a else a
+                    r_ = {k: sorted(v['parameters']) for k, v in real.items()}
+                    if m != r_:
+                        res.diverge('models estimated by estimate_catalog (identifier -> parameters)', c, m, r_, where=W_EST)
+
+            lexpr = lean_expr(c['expr'])
+            ctx.batch.add_many([{'op': 'estimate', 'expr': lexpr, 'max': MAXN, 'selected': None},
+                                {'op': 'estimate', 'expr': lexpr, 'max': MAXN, 'selected': obs['chosen']}], cb)
+
+
+def flush_leanrun(res):
+    """the texts the calculator handed to the engine for configured formulas, run by the proved engine model: the
+    value must be the integer value of the formula written out by hand (and the value the real engine returned)"""
+    if not LEANRUN:
+        return
+    try:
+        vals = leanrun.lean_values([o for o, _, _ in LEANRUN])
+    except core.LeanError as e:
+        res.notes.append('engine model unavailable: ' + str(e)[:200])
+        LEANRUN.clear()
+        return
+    for (o, v_int, case), lean in zip(LEANRUN, vals):
+        leanrun.compare(res, o, lean, 'configured formula', case, rel=0, abs_=0, where='MultipleExpression.get_signature')
+        if isinstance(lean, list) and lean != v_int:
+            res.diverge('the signature text of the configured formula, run by the engine model, is not the integer value of the formula written '
+                        'out by hand', case, lean, v_int, where='MultipleExpression.get_signature')
+    LEANRUN.clear()
+
+
+# --------------------------------------------------------------------------- a formula used inside a bigger formula
+#
+# Formulas are values: the same utility is used on its own (how many specifications? iterate, configure, evaluate) and
+# as a part of bigger formulas (a model, a model plus a further catalog).  Oracle: at any moment, whatever enclosing
+# or enclosed formula was used before, a formula reports one configuration per combination of the choices of ITS OWN
+# controllers, iterates over them once each, accepts each of them and evaluates like its hand-written form; after an
+# enclosing formula is configured, the catalogs of the enclosed one show the alternatives of that configuration.
+# Model: central of each formula (a function of the formula alone), theorem embedded_formula.
+
+W_EMBED = 'Expression.set_central_controller: the central controller of an enclosing formula replaces that of the formulas it contains'
+W_OWN = 'Expression.set_central_controller / CentralController.__init__'
+MATCHERS['embedded'] = lambda case: isinstance(case, dict) and case.get('shape') == 'embedded'
+
+
+def gen_embed_case(rng):
+    base = gen_case(rng)
+    decl = dict(base.get('decl') or {})
+    used = {n['name'] for n in all_cat_nodes(base['expr'], [])} | set(decl)
+    ctrl_used = set(walk_ctrls(base['expr'], {}, decl))
+
+    def extra():
+        r = rng.random()
+        if r < 0.15:
+            return {'k': 'var', 'n': rng.choice(VARS)}  # no new controller: the space does not change
+        free = [n for n in CAT_NAMES if n not in used and n not in ctrl_used]
+        if not free:
+            return {'k': 'num', 'v': 2}
+        name = rng.choice(free)
+        used.add(name)
+        if decl and r < 0.4:
+            cn = rng.choice(sorted(decl))  # handed a controller the inner formula uses as well
+            return {'k': 'cat', 'name': name, 'ctrl': cn, 'own': False, 'ms': [[s_, {'k': 'num', 'v': rng.randint(-4, 6)}] for s_ in decl[cn]]}
+        specs = rng.sample(SPEC_NAMES, rng.choice([1, 2, 2, 3]))
+        return {'k': 'cat', 'name': name, 'ctrl': name, 'own': True,
+                'ms': [[s_, rng.choice([{'k': 'num', 'v': rng.randint(-4, 6)}, {'k': 'beta', 'n': rng.choice(BETAS)}, {'k': 'var', 'n': rng.choice(VARS)}])]
+                       for s_ in specs]}
+
+    sub = base['expr']
+    big = {'k': 'bin', 'op': rng.choice(['plus', 'times', 'minus']), 'a': sub, 'b': extra()}
+    if rng.random() < 0.5:
+        big = {'k': 'bin', 'op': big['op'], 'a': big['b'], 'b': big['a']}
+    big2 = {'k': 'bin', 'op': rng.choice(['plus', 'minus']), 'a': big, 'b': extra()}
+    script = [rng.choice(['sub', 'big', 'big2']) for _ in range(rng.randint(3, 7))]
+    case = {'shape': 'embedded', 'expr': big2, 'betas': base['betas'], 'rows': base['rows'][:2], 'script': script}
+    if decl:
+        case['decl'] = decl
+    return case
+
+
+def embed_parts(case):
+    """the three formulas of the case: the inner formula (the operand that is not a leaf nor a single catalog), the formula made of it and
+    one further operand, and the whole"""
+    big2 = case['expr']
+    big = big2['a']
+    sub = big['b'] if big['a']['k'] in ('cat', 'var', 'num') else big['a']
+    return {'sub': sub, 'big': big, 'big2': big2}
+
+
+def run_embedding(res, case, report=True):
+    """execute the script of uses; returns the observations [(label, after_enclosing, obs)]"""
+    L = lib()
+    parts = embed_parts(case)
+    keep = {}
+    _, cats = build_real(case, keep=keep)
+    real = {k: keep[id(v)] for k, v in parts.items()}
+    rank = {'sub': 0, 'big': 1, 'big2': 2}
+    decl = case.get('decl')
+    db_ = database(case)
+    rng = core.rng_for('C16-embed', len(json.dumps(case['script'])) + sum(case['betas'].values()))
+    spaces = {k: walk_ctrls(v, {}, decl) for k, v in parts.items()}
+    used = set()
+    out = []
+    for step, label in enumerate(case['script']):
+        F, abstract, ctrls = real[label], parts[label], spaces[label]
+        # an enclosing formula with MORE controllers was used before: the shape of the listed finding
+        after = any(rank[u] > rank[label] and set(spaces[u]) != set(ctrls) for u in used)
+        where = W_EMBED if after else W_OWN
+        names = sorted(ctrls)
+        valid = valid_ids(ctrls)
+        n = math.prod(len(v) for v in ctrls.values())
+        pcase = {**case, 'step': step, 'formula': label}
+        obs = {}
+
+        def bad(what, observed, expected):
+            if report:
+                res.violate(f'formula {label!r} (step {step} of the script, formulas used before: {sorted(used)}): {what}', pcase, observed, expected,
+                            where=where)
+
+        try:
+            obs['number'] = F.number_of_multiple_expressions()
+            cs = F.set_of_configurations()
+            obs['configs'] = None if cs is None else sorted(c.get_string_id() for c in cs)
+            if obs['number'] != n:
+                bad('number_of_multiple_expressions is not the product of the sizes of its controllers', obs['number'], n)
+            elif n <= MAXN and obs['configs'] != sorted(valid):
+                bad('set_of_configurations is not one configuration per combination of the choices of its controllers', obs['configs'], sorted(valid))
+            elif n <= MAXN:
+                visited = sorted(ee.current_configuration().get_string_id() for ee in F)
+                if visited != sorted(valid):
+                    bad('iteration does not visit each of its configurations exactly once', visited, sorted(valid))
+            cfg = {m: rng.choice(ctrls[m]) for m in names}
+            F.configure_catalogs(L.Configuration.from_dict(cfg))
+            now = F.current_configuration().get_string_id()
+            obs['configured'] = [cfg_id(cfg), now]
+            if now != cfg_id(cfg):
+                bad(f'after configure_catalogs({cfg_id(cfg)!r}) its current configuration is another one', now, cfg_id(cfg))
+            # every catalog of the formula (and of the formulas inside it) shows the alternative selected
+            inside = {id(nd) for nd in all_cat_nodes(abstract, [])}
+            wrong = sorted(nd['name'] for nd, cat in cats if id(nd) in inside and cat.selected_name() != cfg[nd['ctrl']])
+            if wrong:
+                bad(f'after configure_catalogs({cfg_id(cfg)!r}) catalogs {wrong} show another alternative', wrong, [])
+            for inner in ('sub', 'big'):
+                if rank[inner] <= rank[label]:
+                    F2 = real[inner]
+                    F2.set_id_manager(None)
+                    got = [float(v) for v in F2.get_value_c(database=db_, prepare_ids=True)]
+                    F2.set_id_manager(None)
+                    want = [float(hand_int(parts[inner], cfg, case['betas'], r)) for r in case['rows']]
+                    if got != want:
+                        bad(f'configured as {cfg_id(cfg)!r}, the formula {inner!r} inside it does not evaluate like its hand-written form', got, want)
+        except Exception as e:  # noqa: BLE001
+            if core.exc_kind(e) != 'BiogemeError':
+                raise
+            obs['err'] = err_tag(e)
+            bad(f'raises {err_tag(e)}: {str(e)[:160]}', err_tag(e), 'no error')
+        used.add(label)
+        out.append((label, after, obs))
+    return out, parts, spaces
+
+
+EMBED_CORPUS = [
+    # (c1 + 10) used alone, then as a part of (c1 + 10) * c2, then alone again; then the whole inside a third formula
+    {'shape': 'embedded',
+     'expr': {'k': 'bin', 'op': 'plus',
+              'a': {'k': 'bin', 'op': 'times',
+                    'a': {'k': 'bin', 'op': 'plus', 'a': {'k': 'cat', 'name': 'c1', 'ctrl': 'c1', 'own': True, 'ms': [['a', {'k': 'num', 'v': 1}], ['b', {'k': 'num', 'v': 2}]]},
+                          'b': {'k': 'num', 'v': 10}},
+                    'b': {'k': 'cat', 'name': 'c2', 'ctrl': 'c2', 'own': True,
+                          'ms': [['u', {'k': 'num', 'v': 100}], ['v', {'k': 'num', 'v': 200}], ['w', {'k': 'num', 'v': 300}]]}},
+              'b': {'k': 'cat', 'name': 'c10', 'ctrl': 'c10', 'own': True, 'ms': [['p', {'k': 'var', 'n': 'x'}], ['q', {'k': 'beta', 'n': 'b1'}]]}},
+     'betas': {'b1': 2, 'b10': 1, 'b2': -1, 'asc': 3}, 'rows': [{'x': 1, 'y': 4, 'z': 0}, {'x': -2, 'y': 5, 'z': 1}],
+     'script': ['sub', 'big', 'sub', 'big2', 'big', 'sub']},
+]
+
+
+def check_embedding(ctx, res, n):
+    for i in range(n + len(EMBED_CORPUS)):
+        case = EMBED_CORPUS[i] if i < len(EMBED_CORPUS) else gen_embed_case(ctx.rng)
+        res.count(case, nontrivial=True)
+        try:
+            out, parts, spaces = run_embedding(res, case)
+        except Exception as e:  # noqa: BLE001
+            res.violate(f'the real code raises {type(e).__name__}: {str(e)[:200]} while formulas sharing catalogs are used in turn', case, core.exc_kind(e),
+                        'no error', where=W_OWN)
+            continue
+        for label, after, _ in out:
+            res.tally('embedded:use of ' + label + (' after an enclosing formula' if after else ''))
+        reqs = [{'op': 'central', 'expr': lean_expr(parts[k]), 'max': MAXN} for k in ('sub', 'big', 'big2')]
+
+        def cb(ans, case=case, out=out):
+            m = dict(zip(('sub', 'big', 'big2'), ans))
+            for step, (label, after, obs) in enumerate(out):
+                a = m[label]
+                if 'err' in a:
+                    res.diverge('the model refuses a formula the code accepts', {**case, 'formula': label}, a, obs, where=W_OWN)
+                    continue
+                if 'number' not in obs:
+                    continue
+                mc = None if a.get('configs') is None else sorted(a['configs'])
+                if a.get('number') != obs['number'] or mc != obs.get('configs'):
+                    res.diverge(f'number / set of configurations of formula {label!r} at step {step}', {**case, 'step': step, 'formula': label},
+                                [a.get('number'), mc], [obs['number'], obs.get('configs')], where=W_EMBED if after else W_OWN)
+
+        ctx.batch.add_many(reqs, cb)
 
 # --------------------------------------------------------------------------- known-finding shapes (oracle only)
 
@@ -1531,13 +2358,14 @@ CORPUS = [
 
 
 def check(ctx) -> Result:
-    res = Result(rule=RULE, tolerance='exact (strings, integers; engine values are small integers)')
+    res = Result(rule=RULE, tolerance='exact (strings, integers; engine values are small integers); estimate_catalog: final log likelihood rel 1e-5')
+    LEANRUN.clear()
     run_probes(res)
     base = len(res.violations)  # the probes of the listed findings do not stop the stream
     for c in CORPUS:
         check_case(ctx, res, c, n_configs=ctx.n(12, 125), n_hist=ctx.n(2, 6))
         res.tally('corpus')
-    for _ in range(ctx.n(150, 4000)):
+    for _ in range(ctx.n(150, 3600)):
         case = gen_case(ctx.rng)
         check_case(ctx, res, case, n_configs=ctx.n(16, 100), n_hist=ctx.n(2, 5))
         if len(res.violations) - base > 5:
@@ -1545,7 +2373,11 @@ def check(ctx) -> Result:
     check_modify(ctx, res, ctx.n(300, 5000))
     check_errors(ctx, res, ctx.n(100, 2000))
     check_helpers(ctx, res, ctx.n(12, 200))
+    check_construction(ctx, res, ctx.n(45, 500))
+    check_estimate(ctx, res, ctx.n(3, 30))
+    check_embedding(ctx, res, ctx.n(40, 400))
     ctx.batch.flush()
+    flush_leanrun(res)
     return res
 
 
@@ -1564,6 +2396,22 @@ def search(ctx, res, broken):
             res.violations.extend(r2.violations[:1])
             return
     r2 = Result()
+    for _ in range(300):
+        oracle_construct(r2, gen_build_case(rng))
+        if r2.violations:
+            res.violations.extend(r2.violations[:1])
+            return
+    for _ in range(150):
+        c = gen_embed_case(rng)
+        try:
+            run_embedding(r2, c)
+        except Exception as e:  # noqa: BLE001
+            r2.violate(f'the real code raises {type(e).__name__}: {e} while formulas sharing catalogs are used in turn', c, str(e), 'no error', where=W_OWN)
+        fresh = [v for v in r2.violations if v.get('where') != W_EMBED]  # the listed finding is not a new failing input
+        if fresh:
+            res.violations.extend(fresh[:1])
+            return
+        r2.violations.clear()
     check_modify(sub, r2, 2000)
     check_helpers(sub, r2, 40)
     ctx.batch.items.clear()
@@ -1583,13 +2431,20 @@ def replay(ctx, obj):
             oracle_stale(r, case)
         elif case.get('shape') == 'root_catalog':
             oracle_root(r, case)
+        elif case.get('shape') == 'construct':
+            oracle_construct(r, case)
+        elif case.get('shape') == 'embedded':
+            run_embedding(r, {k: v for k, v in case.items() if k not in ('step', 'formula')})
+        elif case.get('shape') == 'estimate':
+            o = core.run_isolated('props.c16', 'isolated_estimate', {'cases': [{k: v for k, v in case.items() if k not in ('config', 'chosen')}]})
+            r.violations.extend(v for c in o.get('cases', []) for v in c['violations'])
         elif case.get('shape') == 'helper':
             out.update({'property_fails': None, 'note': 'helper cases are replayed by re-running the check with the stored seed'})
             return out
         elif 'expr' in case and 'events' in case:
-            run_population(r, {k: case[k] for k in ('expr', 'betas', 'rows')}, case['members'], case['events'])
+            run_population(r, {k: case[k] for k in ('expr', 'decl', 'betas', 'rows') if k in case}, case['members'], case['events'])
         elif 'expr' in case:
-            check_case(sub, r, {k: case[k] for k in ('expr', 'betas', 'rows')}, n_configs=125, n_hist=6, model=False)
+            check_case(sub, r, {k: case[k] for k in ('expr', 'decl', 'betas', 'rows') if k in case}, n_configs=125, n_hist=6, model=False)
         elif 'specs' in case:
             L = lib()
             c = L.Controller('m', case['specs'])
